@@ -82,11 +82,15 @@ def main():
     k_same = [i for i, t in enumerate(X[0]['vtypes']) if t == X[0]['utype']][0]
     k_unknown = [i for i, t in enumerate(X[0]['vtypes']) if t == ''][0]
     ev = copy.deepcopy(X); ev[0]['refused'][1][k_cross] = False
-    add('a cross-type pair accepted when num is omitted', ev, {'CrossTypeRefused'})
+    add('a cross-type pair accepted when num is omitted', ev, {'CrossTypeRefused', 'RefusedEveryTime'})
+    ev = copy.deepcopy(X); ev[0]['refused'][3][k_cross] = False; ev[0]['exc'][3][k_cross] = ''
+    add('a cross-type pair accepted when asked again later', ev, {'CrossTypeRefused', 'RefusedEveryTime'})
+    ev = copy.deepcopy(X); ev[0]['exc'][4][k_cross] = 'UnboundLocalError'
+    add('another exception type after a successful conversion', ev, {'RefusedEveryTime'})
     ev = copy.deepcopy(X); ev[0]['refused'][2][k_same] = True
     add('a same-type pair refused', ev, {'EveryTypedUnitAccepted'})
     ev = copy.deepcopy(X); ev[0]['refused'][0][k_unknown] = False
-    add('an unknown unit accepted', ev, {'UnknownUnitRefused'})
+    add('an unknown unit accepted', ev, {'UnknownUnitRefused', 'RefusedEveryTime'})
 
     def tb(desc, expected, **sel):
         def deco(fn):
